@@ -2,7 +2,7 @@
    from the source) computes the L0 selection (Spec.Select.sel_positions). *)
 From Coq Require Import ZArith NArith List Bool String Lia.
 From DM Require Import Base.PyVal Spec.Nf Spec.Table Spec.Select Gen.KCheck Model.SelectRef Gen.KSelect Model.Select.
-From DM Require Import Proofs.NfFacts Proofs.SelectFacts.
+From DM Require Import Proofs.NfFacts Proofs.SelectFacts Proofs.SelectNum.
 Import ListNotations.
 Open Scope Z_scope.
 
@@ -97,29 +97,48 @@ Proof.
   rewrite (H i c (or_introl eq_refl)), IH by (intros j x Hx; apply H; right; exact Hx). reflexivity.
 Qed.
 
-(* ---------- cells of a column are normal forms of its type *)
-Definition cell_of (k : kind) (c : val) : bool :=
-  match k, c with
-  | KMixed, _ => true
-  | KFloat, VFlt _ => true
-  | KInt, VInt _ => true
-  | _, _ => false
-  end.
-
-(* the part of the reference domain on which the refinement is proved *)
+(* ---------- the part of the reference domain on which the refinement is proved.
+   It contains Spec.Select.in_domain (lemma in_domain_proved below, for references whose floats are
+   binary64 values) and is about the MODEL: where it is wider than in_domain (e.g. integers beyond int64)
+   the model is not claimed to mirror NumPy. *)
 Definition nonintegral (f : fl) : bool := match f with FFin _ _ _ => negb (fl_integral f) | _ => false end.
-Definition proved_scalar (k : kind) (op : cmpop) (v : val) : bool :=
+Definition integral_fin (f : fl) : bool := fl_is_finite f && fl_integral f.
+(* cell_of, val_wf, ref_wf: Model/Select.v *)
+
+(* an element of a sequence reference (and a scalar that _checktype turns into a Python int) *)
+Definition proved_elem (k : kind) (v : val) : bool :=
+  match k, v with
+  | KMixed, _ => true
+  | KFloat, VInt z => small z
+  | KFloat, VFlt f => negb (integral_fin f) || fl_wf f
+  | KFloat, _ => true
+  | KInt, VInt _ => true
+  | KInt, VFlt f => integral_fin f
+  | KInt, _ => false
+  end.
+(* scalars handled by BaseColumn._compare itself *)
+Definition proved_scalar_base (k : kind) (op : cmpop) (v : val) : bool :=
   if is_nan_val v then eq_or_ne op else
   match k, v with
   | KMixed, _ => true
   | KInt, VInt z => int64 z
-  | KFloat, VFlt f => nonintegral f || (eq_or_ne op && fl_is_inf f)
+  | KInt, VFlt f => integral_fin f
+  | KFloat, VInt z => small z
+  | KFloat, VFlt f => nonintegral f || (integral_fin f && fl_wf f) || (eq_or_ne op && fl_is_inf f)
   | _, _ => false
   end.
-Definition proved_dom (k : kind) (op : cmpop) (r : ref) : bool :=
+(* scalars that make NumericColumn._compare_value raise TypeError, caught by IntColumn.__eq__ / __ne__ *)
+Definition int_fallback (k : kind) (op : cmpop) (v : val) : bool :=
+  match k with
+  | KInt => eq_or_ne op && (is_inf_val v || match v with VNone => true | _ => false end)
+  | _ => false
+  end.
+Definition proved_scalar (k : kind) (op : cmpop) (v : val) : bool :=
+  proved_scalar_base k op v || int_fallback k op v.
+Definition proved_dom (k : kind) (op : cmpop) (r : ref) (n : nat) : bool :=
   match r with
   | RScalar v => proved_scalar k op v
-  | RSeq _ => false
+  | RSeq vs => Nat.eqb (List.length vs) n && forallb (proved_elem k) vs
   | RSet _ | RPred _ => eq_or_ne op
   | RType t => eq_or_ne op
   end.
@@ -148,15 +167,207 @@ Proof. destruct k, c as [a|g|s|]; cbn; intros H; try discriminate; reflexivity. 
 Lemma cells_in k cells c : forallb (cell_of k) cells = true -> In c cells -> cell_of k c = true.
 Proof. intros H Hin. rewrite forallb_forall in H. apply H. exact Hin. Qed.
 
+(* ---------- what column._checktype makes of a reference value: an integral float becomes a Python int
+   (int(f) == f), text / None become NaN for a FloatColumn *)
+Definition checked (k : kind) (v : val) : pyv :=
+  match v with
+  | VFlt f => if integral_fin f then PInt (fl_trunc f) else PFloat f
+  | VInt z => PInt z
+  | _ => match k with KFloat => PFloat FNan | _ => pyv_of_val v end
+  end.
+
+Lemma checktype_checked k v : proved_elem k v = true -> checktype_of k (pyv_of_val v) = Ok (checked k v).
+Proof.
+  unfold checktype_of, k_numeric_checktype, k_base_checktype_self, k_base_checktype, k_checktype_regular, k_int_checktype,
+    checked, integral_fin, nan.
+  destruct k, v as [z|f|s|]; intros H; try discriminate H; try reflexivity;
+    destruct f as [|n|n|n m e]; try discriminate H;
+    cbn -[fl_trunc num_eqb fl_integral]; try reflexivity;
+    try (rewrite trunc_eq_integral; destruct (fl_integral (FFin n m e)); reflexivity).
+  cbn [proved_elem integral_fin fl_is_finite andb] in H. rewrite H. reflexivity.
+Qed.
+
+(* Python / NumPy comparison of a cell with a checked reference value is py_cmp with the value itself *)
+Lemma py_cmp_num op c v x y : val_num c = Some x -> val_num v = Some y -> py_cmp op c v = cmp_holds op (num_cmp x y).
+Proof. intros Hc Hv. unfold py_cmp. rewrite Hc, Hv. symmetry. apply cmp_holds_num. Qed.
+
+Lemma py_cmp_trunc op c f : integral_fin f = true -> py_cmp op c (VInt (fl_trunc f)) = py_cmp op c (VFlt f).
+Proof.
+  unfold integral_fin. intros H. apply andb_prop in H as [Hf Hi].
+  destruct c as [a|g|s|]; try reflexivity.
+  - rewrite (py_cmp_num op (VInt a) (VInt (fl_trunc f)) (NInt a) (NInt (fl_trunc f))) by reflexivity.
+    rewrite (py_cmp_num op (VInt a) (VFlt f) (NInt a) (NFlt f)) by reflexivity.
+    rewrite num_cmp_trunc by assumption. reflexivity.
+  - rewrite (py_cmp_num op (VFlt g) (VInt (fl_trunc f)) (NFlt g) (NInt (fl_trunc f))) by reflexivity.
+    rewrite (py_cmp_num op (VFlt g) (VFlt f) (NFlt g) (NFlt f)) by reflexivity.
+    rewrite num_cmp_trunc by assumption. reflexivity.
+Qed.
+
+Lemma small_bounds z : small z = true -> (- 2 ^ 53 <= z <= 2 ^ 53)%Z.
+Proof. unfold small. intros H. apply andb_prop in H as [H1 H2]. apply Z.leb_le in H1, H2. lia. Qed.
+
+(* try: op(cell, checked reference) except: no match *)
+Lemma swallow_checked op c v :
+  swallow (py_op op (pyv_of_val c) (checked KMixed v)) = Ok (py_cmp op c v).
+Proof.
+  destruct v as [z|f|s|].
+  - apply (swallow_py_op op c (VInt z)).
+  - unfold checked. destruct (integral_fin f) eqn:E; [|apply (swallow_py_op op c (VFlt f))].
+    rewrite <- (py_cmp_trunc op c f E). apply (swallow_py_op op c (VInt (fl_trunc f))).
+  - apply (swallow_py_op op c (VStr s)).
+  - apply (swallow_py_op op c VNone).
+Qed.
+
+(* element-wise NumPy comparison of a numeric cell with a checked reference value *)
+Lemma np_cmp_checked k op c v : k <> KMixed -> cell_of k c = true -> proved_elem k v = true ->
+  np_cmp_cell k (OpCmp op) c (checked k v) = py_cmp op c v.
+Proof.
+  intros Hk Hc Hv. destruct k; [contradiction| |].
+  - (* float64 array *)
+    destruct c as [a|g|s|]; try discriminate Hc.
+    destruct v as [z|f|s|]; cbn [proved_elem] in Hv.
+    + unfold np_cmp_cell, checked. cbn [val_num np_operand pyv_num].
+      rewrite num_cmp_round53_small by (apply small_bounds; exact Hv).
+      symmetry. apply py_cmp_num; reflexivity.
+    + unfold checked. destruct (integral_fin f) eqn:E.
+      * cbn [negb orb] in Hv. unfold integral_fin in E. apply andb_prop in E as [Ef Ei].
+        unfold np_cmp_cell. cbn [val_num np_operand pyv_num].
+        rewrite num_cmp_round53_trunc by assumption. symmetry. apply py_cmp_num; reflexivity.
+      * unfold np_cmp_cell. cbn [val_num np_operand pyv_num]. symmetry. apply py_cmp_num; reflexivity.
+    + destruct g, op; reflexivity.
+    + destruct g, op; reflexivity.
+  - (* int64 array *)
+    destruct c as [a|g|s|]; try discriminate Hc.
+    destruct v as [z|f|s|]; cbn [proved_elem] in Hv; try discriminate Hv.
+    + unfold np_cmp_cell, checked. cbn [val_num np_operand pyv_num]. symmetry. apply py_cmp_num; reflexivity.
+    + unfold checked. rewrite Hv. rewrite <- (py_cmp_trunc op (VInt a) f Hv).
+      unfold np_cmp_cell. cbn [val_num np_operand pyv_num]. symmetry. apply py_cmp_num; reflexivity.
+Qed.
+
+(* ---------- loops over two zipped sequences *)
+Lemma map_res_map (f : pyv -> res pyv) (g : val -> pyv) (h : val -> pyv) vs :
+  (forall v, In v vs -> f (g v) = Ok (h v)) -> map_res f (map g vs) = Ok (map h vs).
+Proof.
+  induction vs as [|v vs IH]; intros H; [reflexivity|]. cbn [map map_res].
+  rewrite (H v (or_introl eq_refl)). cbn [bind]. rewrite IH by (intros x Hx; apply H; right; exact Hx). reflexivity.
+Qed.
+
+Lemma tosequence_checked k (cells : list val) vs :
+  List.length vs = List.length cells -> forallb (proved_elem k) vs = true ->
+  tosequence k (List.length cells) (map pyv_of_val vs) = Ok (map (checked k) vs).
+Proof.
+  intros Hl Hv. unfold tosequence, base_tosequence.
+  rewrite firstn_all2 by (rewrite map_length; lia).
+  rewrite (map_res_map _ pyv_of_val (checked k)).
+  - cbn [bind]. rewrite map_length, Hl, Nat.eqb_refl. reflexivity.
+  - intros v Hin. apply checktype_checked. rewrite forallb_forall in Hv. apply Hv. exact Hin.
+Qed.
+
+Definition seq_sat (g : val -> val -> bool) (vs : list val) (j : nat) (c : val) : bool :=
+  match nth_error vs j with Some v => g c v | None => false end.
+
+Lemma keep_where2_spec k (test : pyv -> pyv -> res bool) (g : val -> val -> bool) (h : val -> pyv) :
+  forall cells vs pre, List.length vs = List.length cells ->
+  (forall c v, In c cells -> In v vs -> test (iter_obj k c) (h v) = Ok (g c v)) ->
+  keep_where2 k test (List.length pre) cells (map h vs)
+  = Ok (positions_sat (seq_sat g (pre ++ vs)) cells (List.length pre)).
+Proof.
+  induction cells as [|c r IH]; intros [|v s] pre Hl H; try discriminate Hl; [reflexivity|].
+  cbn [map keep_where2 positions_sat]. rewrite (H c v (or_introl eq_refl) (or_introl eq_refl)). cbn [bind].
+  specialize (IH s (pre ++ [v])). rewrite app_length in IH. cbn [List.length] in IH.
+  rewrite Nat.add_1_r, <- app_assoc in IH. cbn [app] in IH.
+  rewrite IH; [|cbn in Hl; lia|intros x y Hx Hy; apply H; right; assumption]. cbn [bind].
+  assert (E : seq_sat g (pre ++ v :: s) (List.length pre) c = g c v).
+  { unfold seq_sat. rewrite nth_error_app2 by lia. rewrite Nat.sub_diag. reflexivity. }
+  rewrite E. reflexivity.
+Qed.
+
+Lemma v_cmp_seq_spec k op (g : val -> val -> bool) (h : val -> pyv) :
+  forall cells vs pre, List.length vs = List.length cells ->
+  (forall c v, In c cells -> In v vs -> np_cmp_cell k op c (h v) = g c v) ->
+  where_from (List.length pre) (v_cmp_seq k op cells (map h vs))
+  = positions_sat (seq_sat g (pre ++ vs)) cells (List.length pre).
+Proof.
+  induction cells as [|c r IH]; intros [|v s] pre Hl H; try discriminate Hl; [reflexivity|].
+  cbn [map v_cmp_seq where_from positions_sat]. rewrite (H c v (or_introl eq_refl) (or_introl eq_refl)).
+  specialize (IH s (pre ++ [v])). rewrite app_length in IH. cbn [List.length] in IH.
+  rewrite Nat.add_1_r, <- app_assoc in IH. cbn [app] in IH.
+  rewrite IH; [|cbn in Hl; lia|intros x y Hx Hy; apply H; right; assumption].
+  assert (E : seq_sat g (pre ++ v :: s) (List.length pre) c = g c v).
+  { unfold seq_sat. rewrite nth_error_app2 by lia. rewrite Nat.sub_diag. reflexivity. }
+  rewrite E. reflexivity.
+Qed.
+
+(* ---------- `other` is a list / tuple: _issequence and the dispatch chain *)
+Lemma issequence_seq cells vs :
+  k_issequence (plen cells) (MSeq (map pyv_of_val vs))
+  = if Nat.eqb (List.length vs) (List.length cells) then Ok true else Raise TypeError.
+Proof.
+  unfold k_issequence, plen. cbn [r_is_set r_is_basestring r_has_len r_len orb negb].
+  rewrite py_eq_int, map_length.
+  destruct (Nat.eqb_spec (List.length vs) (List.length cells)) as [->|Hn].
+  - rewrite Z.eqb_refl. reflexivity.
+  - assert (E : (Z.of_nat (List.length vs) =? Z.of_nat (List.length cells))%Z = false) by (apply Z.eqb_neq; lia).
+    rewrite E. reflexivity.
+Qed.
+
+Lemma dispatch_seq cells vs op :
+  k_compare_dispatch (plen cells) (MSeq (map pyv_of_val vs)) op
+  = if Nat.eqb (List.length vs) (List.length cells) then Ok BSeq else Raise TypeError.
+Proof.
+  unfold k_compare_dispatch. cbn [r_is_float r_is_type r_is_set r_is_function bind]. rewrite issequence_seq.
+  destruct (Nat.eqb (List.length vs) (List.length cells)); reflexivity.
+Qed.
+
+(* BaseColumn._compare_sequence / NumericColumn._compare_sequence *)
+Lemma base_compare_seq k cells op vs :
+  forallb (cell_of k) cells = true -> List.length vs = List.length cells -> forallb (proved_elem k) vs = true ->
+  base_compare k cells (OpCmp op) (inj_ref (RSeq vs)) = Ok (sel_positions op (RSeq vs) cells).
+Proof.
+  intros Hc Hl Hv. unfold base_compare. cbn [inj_ref]. rewrite dispatch_seq, Hl, Nat.eqb_refl. cbn [bind r_items].
+  assert (Hsel : sel_positions op (RSeq vs) cells = positions_sat (seq_sat (py_cmp op) ([] ++ vs)) cells (List.length (@nil val)))
+    by reflexivity.
+  rewrite Hsel. destruct k.
+  - rewrite tosequence_checked by assumption. cbn [bind].
+    apply (keep_where2_spec KMixed _ (py_cmp op) (checked KMixed) cells vs [] Hl).
+    intros c v _ _. unfold k_compare_sequence_cell, py_mop. cbn [iter_obj]. apply swallow_checked.
+  - unfold k_numeric_compare_sequence. rewrite tosequence_checked by assumption. cbn [bind]. f_equal.
+    apply (v_cmp_seq_spec KFloat (OpCmp op) (py_cmp op) (checked KFloat) cells vs [] Hl).
+    intros c v Hin Hinv. apply np_cmp_checked; [discriminate|apply (cells_in KFloat cells); assumption|].
+    rewrite forallb_forall in Hv. apply Hv. exact Hinv.
+  - unfold k_numeric_compare_sequence. rewrite tosequence_checked by assumption. cbn [bind]. f_equal.
+    apply (v_cmp_seq_spec KInt (OpCmp op) (py_cmp op) (checked KInt) cells vs [] Hl).
+    intros c v Hin Hinv. apply np_cmp_checked; [discriminate|apply (cells_in KInt cells); assumption|].
+    rewrite forallb_forall in Hv. apply Hv. exact Hinv.
+Qed.
+
+(* NumericColumn._compare_value on a reference that _checktype turns into a Python int *)
+Lemma numeric_value_int k cells op v t :
+  k <> KMixed -> forallb (cell_of k) cells = true -> proved_elem k v = true -> checked k v = PInt t ->
+  k_numeric_compare_value k (checktype_of k) cells (pyv_of_val v) (OpCmp op)
+  = Ok (positions_sat (fun _ c => py_cmp op c v) cells 0).
+Proof.
+  intros Hk Hc Hv Ht. unfold k_numeric_compare_value. rewrite checktype_checked by exact Hv. rewrite Ht.
+  cbn [bind b_isnan b_isinf]. unfold v_where, v_cmp. rewrite where_from_map. f_equal.
+  apply positions_sat_ext. intros i c Hin. rewrite <- Ht.
+  apply np_cmp_checked; [exact Hk|apply (cells_in k cells); assumption|exact Hv].
+Qed.
+
 (* ---------- BaseColumn._compare on the proved domain *)
 Lemma base_compare_spec k cells op r :
-  forallb (cell_of k) cells = true -> proved_dom k op r = true ->
+  forallb (cell_of k) cells = true ->
+  match r with
+  | RScalar v => proved_scalar_base k op v
+  | _ => proved_dom k op r (List.length cells)
+  end = true ->
   (k = KInt -> match r with RType _ => False | _ => True end) ->
   base_compare k cells (OpCmp op) (inj_ref r) = Ok (sel_positions op r cells).
 Proof.
-  intros Hc Hd Hint. unfold sel_positions. destruct r as [v|vs|vs|f|t]; cbn [proved_dom] in Hd; try discriminate.
+  intros Hc Hd Hint. destruct r as [v|vs|vs|f|t]; cbn [proved_dom] in Hd.
+  2:{ apply andb_prop in Hd as [Hl Hv]. apply Nat.eqb_eq in Hl. apply base_compare_seq; assumption. }
+  all: unfold sel_positions.
   - (* scalar *)
-    unfold proved_scalar in Hd. destruct (is_nan_val v) eqn:En.
+    unfold proved_scalar_base in Hd. destruct (is_nan_val v) eqn:En.
     + destruct v as [a|[]|s|]; try discriminate En.
       assert (Hop : op = CEq \/ op = CNe) by (destruct op; try discriminate Hd; auto).
       unfold base_compare. cbn [inj_ref pyv_of_val]. unfold k_compare_dispatch. cbn -[keep_where k_compare_nan].
@@ -170,14 +381,27 @@ Proof.
       { destruct v as [a|[]|s|]; try discriminate En; reflexivity. }
       unfold base_compare. cbn [inj_ref]. rewrite Hdisp. cbn [bind r_val].
       assert (Hss : forall c, sat_scalar op c v = py_cmp op c v) by (intros c; unfold sat_scalar; rewrite En; reflexivity).
+      assert (Hsat : positions_sat (fun _ c => py_cmp op c v) cells 0 = positions_sat (sat_at op (RScalar v)) cells 0).
+      { apply positions_sat_ext. intros i c _. cbn [sat_at]. rewrite Hss. reflexivity. }
       destruct k.
       * rewrite (keep_where_total KMixed _ (fun c => py_cmp op c v)).
-        -- apply f_equal, positions_sat_ext. intros i c _. cbn. rewrite Hss. reflexivity.
+        -- rewrite Hsat. reflexivity.
         -- intros c _. unfold k_compare_value_cell, py_mop. cbn [iter_obj]. apply swallow_py_op.
       * (* FloatColumn *)
         destruct v as [a|f|s|]; try discriminate Hd.
+        { (* an int up to 2^53: float(int) is exact *)
+          rewrite <- Hsat. apply (numeric_value_int KFloat cells op (VInt a) a); [discriminate|exact Hc|exact Hd|reflexivity]. }
+        destruct (integral_fin f) eqn:Eint.
+        { (* an integral float: _checktype makes it int(f), NumPy converts that back: exact *)
+          assert (Hw : fl_wf f = true).
+          { unfold nonintegral, integral_fin in *. destruct f as [|n|n|n m e]; try discriminate Eint; try reflexivity.
+            cbn [fl_is_finite andb] in Eint. rewrite Eint in Hd. cbn [negb orb andb fl_is_inf] in Hd.
+            rewrite andb_false_r, orb_false_r in Hd. exact Hd. }
+          rewrite <- Hsat. apply (numeric_value_int KFloat cells op (VFlt f) (fl_trunc f)); [discriminate|exact Hc| |].
+          - cbn [proved_elem]. rewrite Hw. apply orb_true_r.
+          - unfold checked. rewrite Eint. reflexivity. }
         assert (Hcase : nonintegral f = true \/ (eq_or_ne op = true /\ fl_is_inf f = true)).
-        { apply orb_prop in Hd as [H|H]; [left; exact H|right; apply andb_prop in H; exact H]. }
+        { rewrite andb_false_l, orb_false_r in Hd. apply orb_prop in Hd as [H|H]; [left; exact H|right; apply andb_prop in H; exact H]. }
         assert (Hck : checktype_of KFloat (PFloat f) = Ok (PFloat f)).
         { unfold checktype_of, k_numeric_checktype, k_base_checktype_self, k_base_checktype, k_checktype_regular.
           destruct f as [|n|n|n m e]; try discriminate En.
@@ -199,16 +423,12 @@ Proof.
            destruct op; try discriminate Hop; cbn -[v_cmp v_where]; rewrite Hfin; reflexivity.
         -- destruct Hcase as [H|[_ H]]; discriminate H.
         -- cbn -[v_cmp v_where]. rewrite Hfin. reflexivity.
-      * (* IntColumn *)
+      * (* IntColumn: an int, or an integral float (int(f) == f) *)
+        rewrite <- Hsat.
         destruct v as [z|f|s|]; try discriminate Hd.
-        unfold k_numeric_compare_value. cbn [checktype_of k_int_checktype pyv_of_val is_int bind].
-        assert (Hok : np_scalar_ok (PInt z) = true).
-        { unfold int64 in Hd. unfold np_scalar_ok. apply andb_prop in Hd as [H1 H2]. rewrite H1. cbn.
-          apply Z.ltb_lt in H2. apply Z.ltb_lt. lia. }
-        cbn [b_isnan b_isinf bind]. unfold v_where, v_cmp. rewrite where_from_map.
-        apply f_equal, positions_sat_ext. intros i c Hin. cbn [sat_at]. rewrite Hss.
-        pose proof (cells_in _ _ c Hc Hin) as Hcc. destruct c as [a|g|s|]; try discriminate Hcc.
-        unfold np_cmp_cell, py_cmp. cbn [val_num np_operand pyv_num]. apply cmp_holds_num.
+        -- apply (numeric_value_int KInt cells op (VInt z) z); [discriminate|exact Hc|reflexivity|reflexivity].
+        -- apply (numeric_value_int KInt cells op (VFlt f) (fl_trunc f)); [discriminate|exact Hc|exact Hd|].
+           unfold checked. rewrite Hd. reflexivity.
   - (* set *)
     assert (Hop : op = CEq \/ op = CNe) by (destruct op; try discriminate Hd; auto).
     unfold base_compare. cbn [inj_ref]. unfold k_compare_dispatch. cbn -[keep_where k_compare_set].
@@ -260,26 +480,68 @@ Proof.
           | apply positions_sat_none; intros i c Hin; destruct (Hi c Hin) as [z ->]; reflexivity ].
 Qed.
 
-(* L1 = L0 on the proved part of the reference domain.  _partial: sequence references, integer-valued
-   references of a FloatColumn and float references of an IntColumn are inside Spec.Select.in_domain
-   but not covered here (they need the exactness of float(int) below 2^53, Base.round53); for those the
-   model is tied to the implementation and the implementation to L0 by the generated cases only. *)
-Theorem compare_refines_partial k cells op r :
-  forallb (cell_of k) cells = true -> proved_dom k op r = true ->
+(* ---------- IntColumn == / != a reference NumericColumn._compare_value cannot coerce (inf, None):
+   the TypeError is caught and the constant comparison selects nothing / everything *)
+Lemma where_from_const (b : bool) (cells : list val) : forall i,
+  where_from i (map (fun _ => b) cells) = if b then seq i (List.length cells) else [].
+Proof.
+  induction cells as [|c r IH]; intros i; cbn; [destruct b; reflexivity|]. rewrite IH. destruct b; reflexivity.
+Qed.
+
+Lemma int_fallback_spec cells op v :
+  forallb (cell_of KInt) cells = true -> is_nan_val v = false -> int_fallback KInt op v = true ->
+  compare KInt cells op (inj_ref (RScalar v)) = Ok (sel_positions op (RScalar v) cells).
+Proof.
+  intros Hc En Hd. cbn [int_fallback] in Hd. apply andb_prop in Hd as [Hop Hv].
+  assert (Hi : forall c, In c cells -> exists z, c = VInt z).
+  { intros c Hin. pose proof (cells_in _ _ c Hc Hin) as H. destruct c; try discriminate H. eexists; reflexivity. }
+  assert (Hraise : forall o, base_compare KInt cells (OpCmp o) (MVal (pyv_of_val v)) = Raise TypeError).
+  { intros o. destruct v as [a|[|n|n|n m e]|s|]; try discriminate Hv; reflexivity. }
+  assert (Hconst : forall b, k_numeric_compare_value KInt (checktype_of KInt) cells (PInt 0) (OpConst b)
+                             = Ok (if b then seq 0 (List.length cells) else [])).
+  { intros b. unfold k_numeric_compare_value. cbn [checktype_of k_int_checktype is_int bind b_isnan b_isinf].
+    unfold v_where, v_cmp. cbn [np_cmp_cell]. rewrite where_from_const. reflexivity. }
+  assert (Hne : forall c, In c cells -> py_cmp CEq c v = false /\ py_cmp CNe c v = true).
+  { intros c Hin. destruct (Hi c Hin) as [z ->]. destruct v as [a|[|n|n|n m e]|s|]; try discriminate Hv; split; try reflexivity;
+      destruct n; reflexivity. }
+  unfold compare, sel_positions. destruct op; try discriminate Hop.
+  - unfold k_int_eq. cbn [inj_ref r_is_type]. rewrite (issequence_nonseq _ (RScalar v) I). cbn [bind].
+    rewrite Hraise. cbn [try_bind existsb exn_eqb orb]. rewrite Hconst. f_equal. symmetry.
+    apply positions_sat_none. intros i c Hin. cbn [sat_at]. unfold sat_scalar. rewrite En. apply (Hne c Hin).
+  - unfold k_int_ne. cbn [inj_ref r_is_type]. rewrite (issequence_nonseq _ (RScalar v) I). cbn [bind].
+    rewrite Hraise. cbn [try_bind existsb exn_eqb orb]. rewrite Hconst. f_equal. symmetry.
+    apply positions_sat_all. intros i c Hin. cbn [sat_at]. unfold sat_scalar. rewrite En. apply (Hne c Hin).
+Qed.
+
+(* L1 = L0 on the proved domain: scalars, same-length sequences, sets, predicates and types, for the three
+   column types and the six operators. *)
+Theorem compare_refines_dom k cells op r :
+  forallb (cell_of k) cells = true -> proved_dom k op r (List.length cells) = true ->
   compare k cells op (inj_ref r) = Ok (sel_positions op r cells).
 Proof.
   intros Hc Hd.
+  destruct (match r with RScalar v => negb (proved_scalar_base k op v) | _ => false end) eqn:Efb.
+  { (* only the IntColumn fallback covers this scalar *)
+    destruct r as [v| | | |]; try discriminate Efb. apply negb_true_iff in Efb.
+    cbn [proved_dom] in Hd. unfold proved_scalar in Hd. rewrite Efb in Hd. cbn [orb] in Hd.
+    destruct k; try discriminate Hd.
+    apply int_fallback_spec; [exact Hc| |exact Hd].
+    destruct (is_nan_val v) eqn:En; [|reflexivity].
+    unfold proved_scalar_base in Efb. rewrite En in Efb.
+    cbn [int_fallback] in Hd. apply andb_prop in Hd as [Hop _]. rewrite Hop in Efb. discriminate Efb. }
   assert (Hgen : (k = KInt -> match r with RType _ => False | _ => True end) ->
-                 base_compare k cells (OpCmp op) (inj_ref r) = Ok (sel_positions op r cells))
-    by (apply base_compare_spec; assumption).
-  assert (Hnoseq : match r with RSeq _ => False | _ => True end) by (destruct r; try exact I; discriminate Hd).
+                 base_compare k cells (OpCmp op) (inj_ref r) = Ok (sel_positions op r cells)).
+  { apply base_compare_spec; [exact Hc|]. destruct r as [v| | | |]; try exact Hd.
+    apply negb_false_iff in Efb. exact Efb. }
   unfold compare.
   destruct k; try (apply Hgen; intros E; discriminate E).
   destruct op; try (apply Hgen; intros _; destruct r; try exact I; discriminate Hd).
   - (* IntColumn.__eq__ *)
-    unfold k_int_eq. destruct r as [v|vs|vs|f|t]; try contradiction.
+    unfold k_int_eq. destruct r as [v|vs|vs|f|t].
     + cbn [inj_ref r_is_type]. rewrite (issequence_nonseq _ (RScalar v) I). cbn [bind]. cbn [inj_ref] in Hgen.
       rewrite Hgen by (intros _; exact I). reflexivity.
+    + cbn [inj_ref r_is_type]. rewrite issequence_seq. cbn [proved_dom] in Hd. apply andb_prop in Hd as [Hl _].
+      rewrite Hl. cbn [bind]. cbn [inj_ref] in Hgen. apply Hgen. intros _; exact I.
     + cbn [inj_ref r_is_type]. rewrite (issequence_nonseq _ (RSet vs) I). cbn [bind]. cbn [inj_ref] in Hgen.
       rewrite Hgen by (intros _; exact I). reflexivity.
     + change (r_is_type (inj_ref (RPred f))) with false. cbv iota.
@@ -288,9 +550,11 @@ Proof.
     + cbn [inj_ref r_is_type r_type_accepts_int]. destruct (int_cells_type cells t Hc) as [E _]. rewrite E.
       destruct t; reflexivity.
   - (* IntColumn.__ne__ *)
-    unfold k_int_ne. destruct r as [v|vs|vs|f|t]; try contradiction.
+    unfold k_int_ne. destruct r as [v|vs|vs|f|t].
     + cbn [inj_ref r_is_type]. rewrite (issequence_nonseq _ (RScalar v) I). cbn [bind]. cbn [inj_ref] in Hgen.
       rewrite Hgen by (intros _; exact I). reflexivity.
+    + cbn [inj_ref r_is_type]. rewrite issequence_seq. cbn [proved_dom] in Hd. apply andb_prop in Hd as [Hl _].
+      rewrite Hl. cbn [bind]. cbn [inj_ref] in Hgen. apply Hgen. intros _; exact I.
     + cbn [inj_ref r_is_type]. rewrite (issequence_nonseq _ (RSet vs) I). cbn [bind]. cbn [inj_ref] in Hgen.
       rewrite Hgen by (intros _; exact I). reflexivity.
     + change (r_is_type (inj_ref (RPred f))) with false. cbv iota.
@@ -300,3 +564,62 @@ Proof.
       destruct t; reflexivity.
 Qed.
 
+(* a list / tuple of another length: TypeError, for every column type and operator *)
+Theorem compare_seq_length_mismatch k cells op vs :
+  List.length vs <> List.length cells -> compare k cells op (inj_ref (RSeq vs)) = Raise TypeError.
+Proof.
+  intros Hn. apply Nat.eqb_neq in Hn.
+  assert (Hb : forall o, base_compare k cells o (MSeq (map pyv_of_val vs)) = Raise TypeError).
+  { intros o. unfold base_compare. rewrite dispatch_seq, Hn. reflexivity. }
+  unfold compare. cbn [inj_ref].
+  destruct k; try apply Hb. destruct op; try apply Hb.
+  - unfold k_int_eq. cbn [r_is_type]. rewrite issequence_seq, Hn. reflexivity.
+  - unfold k_int_ne. cbn [r_is_type]. rewrite issequence_seq, Hn. reflexivity.
+Qed.
+
+(* ---------- the property's reference domain (Spec.Select.in_domain) lies inside the proved domain *)
+Lemma elem_dom_proved k cells v : val_wf v = true -> elem_dom k cells v = true -> proved_elem k v = true.
+Proof.
+  destruct k, v as [z|f|s|]; cbn [elem_dom proved_elem val_wf float_ref int_ref]; intros Hw H; try reflexivity;
+    try discriminate H; try exact H.
+  - rewrite Hw. apply orb_true_r.
+  - apply andb_prop in H as [H _]. apply andb_prop in H as [H _]. exact H.
+Qed.
+
+Lemma in_domain_proved k op r cells :
+  ref_wf r = true -> in_domain k op r cells = true -> proved_dom k op r (List.length cells) = true.
+Proof.
+  intros Hw Hd. destruct r as [v|vs|vs|f|t]; cbn [in_domain proved_dom ref_wf] in *; try exact Hd.
+  - (* scalar *)
+    unfold proved_scalar, proved_scalar_base, scalar_dom in *. destruct (is_nan_val v) eqn:En; [rewrite Hd; reflexivity|].
+    destruct k.
+    + reflexivity.
+    + apply andb_prop in Hd as [Hf Ho]. destruct v as [z|f|s|]; try discriminate Hf.
+      * cbn [float_ref] in Hf. rewrite Hf. reflexivity.
+      * cbn [val_wf] in Hw. destruct f as [|n|n|n m e]; try discriminate En.
+        -- cbn [is_inf_val negb] in Ho. rewrite orb_false_r in Ho. rewrite Ho. reflexivity.
+        -- reflexivity.
+        -- unfold nonintegral, integral_fin. cbn [fl_is_finite andb]. rewrite Hw.
+           destruct (fl_integral (FFin n m e)); reflexivity.
+    + apply orb_prop in Hd as [Hd|Hd].
+      * apply andb_prop in Hd as [Hi _]. destruct v as [z|f|s|]; try discriminate Hi.
+        -- cbn [int_ref] in Hi. rewrite Hi. reflexivity.
+        -- cbn [int_ref] in Hi. apply andb_prop in Hi as [Hi _]. unfold integral_fin. rewrite Hi. reflexivity.
+      * cbn [int_fallback]. rewrite Hd. apply orb_true_r.
+  - (* sequence *)
+    apply andb_prop in Hd as [Hl He]. rewrite Hl. cbn [andb].
+    apply forallb_forall. intros v Hin. rewrite forallb_forall in He, Hw.
+    apply (elem_dom_proved k cells); [apply Hw|apply He]; exact Hin.
+  - (* set *)
+    apply andb_prop in Hd as [Ho _]. exact Ho.
+Qed.
+
+(* L1 = L0 on the whole reference domain of the property: for every column type, operator and reference
+   inside Spec.Select.in_domain (floats being binary64 values) the model assembled from the regenerated
+   kernels selects exactly the positions of the specification. *)
+Theorem compare_refines k cells op r :
+  forallb (cell_of k) cells = true -> ref_wf r = true -> in_domain k op r cells = true ->
+  compare k cells op (inj_ref r) = Ok (sel_positions op r cells).
+Proof.
+  intros Hc Hw Hd. apply compare_refines_dom; [exact Hc|]. apply in_domain_proved; assumption.
+Qed.
